@@ -234,10 +234,11 @@ Inductive resite := SRestPath | SValidateNid | SRuleVar | SRuleVarNeg | SCtl | S
 Inductive creq :=
 | RPm (args : bytes)                      (* newPM: options.Arguments *)
 | RPmDs (name : bytes) (ds : list bytes)  (* newPMFromDataset: data-set name, options.Datasets[name] *)
-| RPmF (lines : list bytes)               (* newPMFromFile: trimmed, non-empty, non-comment, lower-cased lines *)
+| RPmF (raw : list bytes)                 (* newPMFromFile: the trimmed, non-empty, non-comment lines BEFORE strings.ToLower *)
 | RRx (pf : bool) (args : bytes)          (* newRX: options.RxPreFilterEnabled, options.Arguments *)
 | RBinRx (args : bytes)                   (* newBinaryRX: options.Arguments (newRX passes its flagged pattern "(?sm)..." there) *)
 | RRe (s : resite) (pat : bytes)          (* regexp.Compile(pat) at one of the six sites *)
+| RReL (s : resite) (raw : bytes)         (* rule.go: regex key of a case-INsensitive variable: rx = strings.ToLower(raw), then as RRe *)
 | RSchema (content : bytes).              (* NewValidateSchema: bytes of the schema file *)
 
 (* compiled artefacts, identified by Go type + everything the compilation depended on *)
@@ -253,7 +254,7 @@ Inductive cerr := EBadRegex (pat : bytes) | EBadBinRegex (pat : bytes) | EBadSch
 Definition kind_of (r : creq) : kind :=
   match r with
   | RPm _ => KPm | RPmDs _ _ => KPmDs | RPmF _ => KPmF | RRx _ _ => KRx
-  | RBinRx _ => KBinRx | RRe _ _ => KRe | RSchema _ => KSchema
+  | RBinRx _ => KBinRx | RRe _ _ => KRe | RReL _ _ => KRe | RSchema _ => KSchema
   end.
 
 (* strings.Join(l, sep) for a one-byte separator *)
@@ -282,35 +283,40 @@ Definition rx_data (args : bytes) : bytes := rx_prefix ++ args.
 
 Definition bool_text (b : bool) : bytes := if b then str "true" else str "false".  (* %v *)
 
-(* the part of the key after the tag *)
-Definition payload (hash : bytes -> bytes) (r : creq) : bytes :=
+(* the part of the key after the tag.  [lower] is strings.ToLower: any function in the theorems,
+   CaseMap.utf8_map (map_rune <regenerated unicode table>) in the correspondence, i.e. Go's rune-by-rune
+   mapping on ARBITRARY bytes (an invalid byte becomes U+FFFD, U+212A becomes k, U+0130 becomes i) *)
+Definition payload (lower hash : bytes -> bytes) (r : creq) : bytes :=
   match r with
-  | RPm args => lower_ascii args                            (* "pm:"+data, data = ToLower(args) *)
+  | RPm args => lower args                                  (* "pm:"+data, data = ToLower(args) *)
   | RPmDs _ ds => memo_join 10 ds                           (* "pmds:"+Join(dataset,"\n")  (fix 54cadaf) *)
-  | RPmF lines => memo_join 10 lines                        (* "pmf:"+Join(lines,"\n") *)
+  | RPmF raw => memo_join 10 (map lower raw)                (* "pmf:"+Join(lines,"\n"), lines = ToLower of each kept line *)
   | RRx pf args => bool_text pf ++ 58 :: rx_data args       (* Sprintf("rx:%v:%s", pf, data) *)
   | RBinRx args => args                                     (* "binrx:"+data *)
   | RRe _ pat => pat                                        (* "re:"+pattern *)
+  | RReL _ raw => lower raw                                 (* "re:"+ToLower(pattern) *)
   | RSchema content => hash content                         (* "schema:"+md5Hash(schemaData) *)
   end.
 
 Section MemoConcrete.
   Variable tags : kind -> bytes.           (* the string literal each family's key starts with *)
+  Variable lower : bytes -> bytes.         (* strings.ToLower *)
   Variable hash : bytes -> bytes.          (* md5Hash (hex of MD5) *)
   Variables re_ok binre_ok schema_ok : bytes -> bool.   (* regexp.Compile / binaryregexp.Compile /
                                                            json.Unmarshal+jsonschema Compile succeed *)
 
-  Definition ckey_of (r : creq) : bytes := tags (kind_of r) ++ payload hash r.
+  Definition ckey_of (r : creq) : bytes := tags (kind_of r) ++ payload lower hash r.
 
   Definition cbuild (r : creq) : result cart cerr :=
     match r with
-    | RPm args => Ok (AAho true (memo_split 32 (lower_ascii args)))   (* builder.Build(dict) *)
+    | RPm args => Ok (AAho true (memo_split 32 (lower args)))         (* builder.Build(dict) *)
     | RPmDs _ ds => Ok (AAho true ds)                                 (* builder.Build(dataset) *)
-    | RPmF lines => Ok (AAho false lines)                             (* builder.Build(lines), DFA:false *)
+    | RPmF raw => Ok (AAho false (map lower raw))                     (* builder.Build(lines), DFA:false *)
     | RRx pf args => if re_ok (rx_data args) then Ok (ARxCompiled pf (rx_data args))
                      else Err (EBadRegex (rx_data args))
     | RBinRx args => if binre_ok args then Ok (ABinRegexp args) else Err (EBadBinRegex args)
     | RRe _ pat => if re_ok pat then Ok (ARegexp pat) else Err (EBadRegex pat)
+    | RReL _ raw => if re_ok (lower raw) then Ok (ARegexp (lower raw)) else Err (EBadRegex (lower raw))
     | RSchema c => if schema_ok c then Ok (ASchema c) else Err (EBadSchema c)
     end.
 
@@ -321,6 +327,7 @@ Section MemoConcrete.
     | RRx _ _, ARxCompiled _ _ => true
     | RBinRx _, ABinRegexp _ => true
     | RRe _ _, ARegexp _ => true
+    | RReL _ _, ARegexp _ => true
     | RSchema _, ASchema _ => true
     | _, _ => false
     end.
@@ -345,26 +352,27 @@ Definition tags_prefix_free (tags : kind -> bytes) : bool :=
 
 (* well-formed requests: what the code guarantees by construction about the values a call site
    has in hand (SecDataset splits on "\n", trims and drops empty entries; newPMFromFile does the
-   same with a line scanner) *)
+   same with a line scanner; lower-casing keeps a line non-empty and newline-free, proved for
+   the real ToLower in MemoProofs.lower_keeps_wf_line) *)
 Definition wf_line (l : bytes) : bool := negb (memo_mem 10 l) && match l with [] => false | _ => true end.
-Definition wf_creq (r : creq) : bool :=
+Definition wf_creq (lower : bytes -> bytes) (r : creq) : bool :=
   match r with
   | RPmDs _ ds => forallb wf_line ds
-  | RPmF lines => forallb wf_line lines
+  | RPmF raw => forallb wf_line (map lower raw)
   | _ => true
   end.
 
 (* the key shapes before the repairs, for the refutation lemmas *)
 Definition untagged (_ : kind) : bytes := [].                         (* before efe1f8f (F04) *)
-Definition payload_name_only (hash : bytes -> bytes) (r : creq) : bytes :=   (* before 0162365 (F05) *)
+Definition payload_name_only (lower hash : bytes -> bytes) (r : creq) : bytes :=   (* before 0162365 (F05) *)
   match r with
   | RPmDs name _ => name
-  | _ => payload hash r
+  | _ => payload lower hash r
   end.
-Definition payload_name_nul (hash : bytes -> bytes) (r : creq) : bytes :=    (* 0162365 .. 54cadaf (F44) *)
+Definition payload_name_nul (lower hash : bytes -> bytes) (r : creq) : bytes :=    (* 0162365 .. 54cadaf (F44) *)
   match r with
   | RPmDs name ds => name ++ 0 :: memo_join 10 ds
-  | _ => payload hash r
+  | _ => payload lower hash r
   end.
 
 (* ------------------------------------------------------------------------------------------ *)
